@@ -191,6 +191,26 @@ func (w *World) Resolve(v ssa.Value) ssa.Value {
 				continue
 			}
 			return v
+		case *ssa.Parameter:
+			if r, ok := w.paramEnv[x]; ok && r != v {
+				v = r
+				continue
+			}
+			return v
+		case *ssa.Call:
+			if rs, ok := w.callEnv[x]; ok && len(rs) == 1 && rs[0] != v {
+				v = rs[0]
+				continue
+			}
+			return v
+		case *ssa.Extract:
+			if c, ok := x.Tuple.(*ssa.Call); ok {
+				if rs, ok := w.callEnv[c]; ok && x.Index < len(rs) {
+					v = rs[x.Index]
+					continue
+				}
+			}
+			return v
 		default:
 			return v
 		}
